@@ -87,6 +87,10 @@ type PeerCfg struct {
 	OnMessage func(p *RefPeer, m refwire.Message) bool // true: handled, skip the default
 	OnReady   func(p *RefPeer)                         // after the handshakes
 	StopRead  bool                                     // never read (congestion)
+	// ChokeUninterested: the peer chokes the system when it says "not
+	// interested" and unchokes it again when it says "interested" (what
+	// real seeds do; it stays an unchoking seed for whoever wants data)
+	ChokeUninterested bool
 	// LeaveAfterHandshake n > 0: with probability 1/n per connection the
 	// peer closes (or resets) the connection as soon as the handshake is over
 	LeaveAfterHandshake int
@@ -746,8 +750,23 @@ func (p *RefPeer) receive(m refwire.Message) {
 		p.event("unchoked")
 	case refwire.Interested:
 		p.SysInterested = true
+		if p.Cfg.ChokeUninterested && p.ChokingSys && p.everUnchoked {
+			p.After(time.Duration(p.W.st.Choice(500))*time.Millisecond, func() {
+				if p.SysInterested && p.ChokingSys {
+					p.Unchoke()
+				}
+			})
+		}
 	case refwire.NotInterested:
 		p.SysInterested = false
+		if p.Cfg.ChokeUninterested && !p.ChokingSys {
+			// what seeds do: an upload slot is for somebody who wants data
+			p.After(time.Duration(p.W.st.Choice(500))*time.Millisecond, func() {
+				if !p.SysInterested && !p.ChokingSys {
+					p.Choke()
+				}
+			})
+		}
 	case refwire.Have:
 		p.SysHave[int(m.Index)] = true
 	case refwire.Bitfield:
